@@ -665,8 +665,8 @@ def run(tier, seed, replay):
             cases.append({"vs": [A(blk)], "yaml": True, "yind": n})
             cases.append({"vs": [O([(b"k", A(blk[:6])), (b"m", O([(b"n", blk[0])]))])], "yaml": True, "yind": n})
             cases.append({"vs": [r.choice(yv)[0] if False else A([blk[j] for j in r.sample(range(len(blk)), 4)])], "yaml": True, "yind": n})
-        # --yaml-output together with the options of the JSON writer (-r, -j, --raw-output0, -c, --tab, -C, -M, -S, -a): the documents are the same
-        yopts = ["-r", "-j", "--raw-output0", "-c", "--tab", "-C", "-M", "-S", "-a"]
+        # --yaml-output together with the options of the JSON writer (-r, -j, --raw-output0, -c, -C, -M): the documents are the same
+        yopts = ["-r", "-j", "--raw-output0", "-c", "-C", "-M"]       # (--tab is rejected together with --yaml-output, by design)
         ysel = r.sample(yv, min(len(yv), 40 if quick else 600))
         for k, vs in enumerate(ysel):
             cases.append({"vs": vs, "yaml": True, "yflags": [yopts[k % len(yopts)]] + (r.sample(yopts, 2) if k % 4 == 0 else [])})
